@@ -2,7 +2,7 @@
    change the shape of the statement.  Statements only; every proof is [exact <lemma>]. *)
 From Coq Require Import List NArith ZArith Bool.
 Import ListNotations.
-From SAV.sql Require Import Literal LiteralStrProofs LiteralNumProofs LiteralListProofs LiteralPyfmtProofs.
+From SAV.sql Require Import Literal LiteralStrProofs LiteralNumProofs LiteralListProofs LiteralPyfmtProofs LiteralPostcompileProofs.
 Open Scope N_scope.
 
 (* ------------------------------------------------------------------ strings *)
@@ -72,6 +72,17 @@ Theorem c05_process_expanding_guarded : forall l r lits,
   process_expanding_be l r lits = render_in_list_be l r lits.
 Proof. exact process_expanding_guarded. Qed.
 Print Assumptions c05_process_expanding_guarded.
+
+(* ------------------------------------------------------------------ post-compile substitution *)
+
+(* _process_parameters_for_postcompile substitutes every __[POSTCOMPILE_<name>] in ONE pass over the
+   original text: for a template of admissible text chunks and parameter tokens the result is the
+   template with each token replaced by its value VERBATIM - the values (rendered literals) are never
+   scanned, so token-like text inside a value cannot be expanded *)
+Theorem c05_postcompile_single_pass : forall f ps,
+  forallb piece_ok ps = true -> pcsub f 0 (tmpl_text ps) = tmpl_fill f ps.
+Proof. exact postcompile_single_pass. Qed.
+Print Assumptions c05_postcompile_single_pass.
 
 (* ------------------------------------------------------------------ the compiler's %(name)s passes *)
 
@@ -212,6 +223,15 @@ Example c05_ex_in_list :
 Proof. vm_compute. reflexivity. Qed.
 Example c05_ex_guard_process_expanding : forallb no_sep [[39; 97; 39]; [39; 44; 39]] = true.
 Proof. vm_compute. reflexivity. Qed.
+(* WHERE a = __[POSTCOMPILE_zq] AND b IN (__[POSTCOMPILE_x]) : an admissible template; the value of zq
+   spells the token of x and stays as it is *)
+Example c05_ex_postcompile :
+  let ps := [Txt [97; 32; 61; 32]; Hole [122; 113]; Txt [32; 73; 78; 32; 40]; Hole [120]; Txt [41]] in
+  let f := fun n => if str_eqb n [122; 113] then Some (39 :: tok [120] ++ [39])
+                    else if str_eqb n [120] then Some [39; 118; 39] else None in
+  forallb piece_ok ps = true /\
+  tmpl_fill f ps = POk ([97; 32; 61; 32] ++ (39 :: tok [120] ++ [39]) ++ [32; 73; 78; 32; 40] ++ [39; 118; 39] ++ [41]).
+Proof. vm_compute. split; reflexivity. Qed.
 Example c05_ex_nopl : nopl [37; 32; 40; 97; 41; 115; 37] = true.
 Proof. vm_compute. reflexivity. Qed.
 Example c05_ex_numeric :
